@@ -41,6 +41,7 @@ Variables D SigT SK : Type.
 Variable sig_verify : Z -> Z -> Z -> SigT -> bool.
 Variable pubx puby : SK -> Z.
 Variable sign : SK -> Z -> SigT.
+Variable json_rt : Z -> option Z.     (* encoding/json round trip of an integer literal, Top78.v *)
 Variable resolve_did : D -> Z -> did_answer.
 Variable id_from_did : D -> Z -> option Z.
 Variable genesis_check : Z -> Z -> option bool.
@@ -153,7 +154,9 @@ Definition issue_bjj (omit : bool) (s : issuer_state) (c : claim) (did : D) (ty 
         (Some (sign (is_sk s) (poseidon [hi_of c; hv_of c])))
         (Some (rproof_of (fst (gen (is_ct s) 0 (hi_of (is_auth s)) []))))
         (istate_of omit s) (Some did)
-        (RSObj (Some (mkcs ty (claim_nonce (is_auth s))))).
+        (* the JSON text carries {"type": ty, "revocationNonce": <the auth claim's nonce>}; the
+           verifier sees it after the interface{} / float64 round trip *)
+        (status_after_json json_rt ty (claim_nonce (is_auth s))).
 
 (* the Iden3SparseMerkleTreeProof for a claim c *)
 Definition issue_smt (omit : bool) (s : issuer_state) (c : claim) (did : D) : smt_bundle D :=
@@ -206,10 +209,13 @@ Theorem bjj_complete :
     rslv (mkcs ty (claim_nonce (is_auth s))) = Some (honest_answer omit s' (claim_nonce (is_auth s))) ->
     wf (is_rt s') -> tree_in_field q (is_rt s') -> 0 <= is_ror s' < q ->
     claim_nonce (is_auth s) < q -> ~ In (claim_nonce (is_auth s)) (keys (is_rt s')) ->
+    (* the nonce survives the decoder's float64 round trip (true below 2^53; see
+       bjj_complete_refuted_json_number for what happens otherwise) *)
+    json_rt (claim_nonce (is_auth s)) = Some (claim_nonce (is_auth s)) ->
     verify_bjj (issue_bjj omit s c did ty) = Ok tt.
 Proof.
   intros Hsig Hq Hq2 Hr Hml omit s s' c did ty rslv
-         (Hx & Hy & Hauthf & Hwfc & Hfc & Hin & Hwfr & Hfr & Hror) Hcf Hpg Hty Hlk Hans Hwfr' Hfr' Hror' Hnq Hnr.
+         (Hx & Hy & Hauthf & Hwfc & Hfc & Hin & Hwfr & Hfr & Hror) Hcf Hpg Hty Hlk Hans Hwfr' Hfr' Hror' Hnq Hnr Hjson.
   apply bjj_decision. unfold bjj_ok.
   set (auth := is_auth s).
   destruct (gen_member_carries (is_ct s) (hi_of auth) (hv_of auth) Hq Hq2 Hr Hml Hwfc Hfc Hin) as [Hcar Hex].
@@ -219,7 +225,8 @@ Proof.
   exists auth, (sign (is_sk s) (poseidon [hi_of c; hv_of c])), (hi_of c), (hv_of c),
          (hi_of auth), (hv_of auth), (rproof_of (fst (gen (is_ct s) 0 (hi_of auth) []))),
          (root (is_ct s)), (state_of s), did, (mkcs ty (claim_nonce auth)).
-  unfold issue_bjj. cbn [b_claim b_auth b_sig b_mtp b_state b_did b_status istate_of st_ctr].
+  unfold issue_bjj, status_after_json. fold auth. fold auth in Hjson. rewrite Hjson.
+  cbn [b_claim b_auth b_sig b_mtp b_state b_did b_status istate_of st_ctr].
   split; [reflexivity|]. split; [reflexivity|].
   split; [apply claim_hashes_of; exact Hcf|].
   split. { split; [|reflexivity]. unfold in_q, hi_of, hv_of. repeat constructor; apply Hr. }
@@ -238,6 +245,84 @@ Proof.
   split; [apply roots_commit; assumption|].
   split; [apply hex_or_zero_opt_root|].
   split; [exact Hcar'|exact Hex'].
+Qed.
+
+(* the checks before the status check do not look at issuerData.credentialStatus *)
+Lemma bjj_status_only_last : forall b r,
+  verify_bjj b = Ok tt ->
+  verify_bjj (mkbjj (b_claim b) (b_auth b) (b_sig b) (b_mtp b) (b_state b) (b_did b) r) =
+  validate_auth_revocation poseidon q reg r (b_auth b).
+Proof.
+  intros b r H. unfold BJJ.verify_bjj in *. cbn [b_claim b_auth b_sig b_mtp b_state b_did b_status].
+  rewrite v78_bind_ok_iff in H. destruct H as (auth & Hauth & H). rewrite Hauth. cbn [bind].
+  rewrite v78_bind_ok_iff in H. destruct H as (sig & Hsig & H). rewrite Hsig. cbn [bind].
+  rewrite v78_bind_ok_iff in H. destruct H as (u1 & H1 & H). rewrite H1. cbn [bind].
+  rewrite v78_bind_ok_iff in H. destruct H as (u2 & H2 & H). rewrite H2. cbn [bind].
+  rewrite v78_bind_ok_iff in H. destruct H as (u3 & H3 & H). rewrite H3. cbn [bind].
+  rewrite v78_bind_ok_iff in H. destruct H as (st & H4 & H). rewrite H4. cbn [bind].
+  reflexivity.
+Qed.
+
+(* REFUTATION of unconditional completeness (finding D22): whenever the JSON round trip of
+   the status entry's nonce yields another number - encoding/json decodes the literal into an
+   interface{} as float64, so this happens for nonces that are not exactly representable,
+   e.g. 2^53+1 |-> 2^53 - an honestly issued bundle, for which every other hypothesis of
+   bjj_complete holds, is rejected with "revocation nonce mismatch". *)
+Theorem bjj_complete_refuted_json_number :
+  (forall sk m, sig_verify (pubx sk) (puby sk) m (sign sk m) = true) ->
+  0 < q -> q <= 2 ^ 256 -> hash_in_field -> (1 <= maxlev <= 241)%nat ->
+  forall omit s s' c did ty rslv n',
+    honest_issuer s -> claim_in_field q c ->
+    published_or_genesis did (state_of s) ->
+    ty <> ""%string -> lookup_resolver reg ty = Some rslv ->
+    rslv (mkcs ty (claim_nonce (is_auth s))) = Some (honest_answer omit s' (claim_nonce (is_auth s))) ->
+    wf (is_rt s') -> tree_in_field q (is_rt s') -> 0 <= is_ror s' < q ->
+    claim_nonce (is_auth s) < q -> ~ In (claim_nonce (is_auth s)) (keys (is_rt s')) ->
+    json_rt (claim_nonce (is_auth s)) = Some n' -> n' <> claim_nonce (is_auth s) ->
+    verify_bjj (issue_bjj omit s c did ty) = Err ENonce.
+Proof.
+  intros Hsig Hq Hq2 Hr Hml omit s s' c did ty rslv n' Hh Hcf Hpg Hty Hlk Hans Hwfr' Hfr' Hror' Hnq Hnr Hjson Hne.
+  (* the same bundle with the status entry as written verifies ... *)
+  set (b0 := mkbjj c (Some (is_auth s)) (Some (sign (is_sk s) (poseidon [hi_of c; hv_of c])))
+                   (Some (rproof_of (fst (gen (is_ct s) 0 (hi_of (is_auth s)) []))))
+                   (istate_of omit s) (Some did)
+                   (RSObj (Some (mkcs ty (claim_nonce (is_auth s)))))).
+  assert (H0 : verify_bjj b0 = Ok tt).
+  { destruct Hh as (Hx & Hy & Hauthf & Hwfc & Hfc & Hin & Hwfr & Hfr & Hror).
+    apply bjj_decision. unfold bjj_ok.
+    destruct (gen_member_carries (is_ct s) (hi_of (is_auth s)) (hv_of (is_auth s)) Hq Hq2 Hr Hml Hwfc Hfc Hin) as [Hcar Hex].
+    assert (Hn0 : 0 <= claim_nonce (is_auth s)) by (unfold claim_nonce; apply Z.mod_pos_bound; lia).
+    destruct (gen_absent_carries (is_rt s') (claim_nonce (is_auth s)) Hq Hq2 Hr Hml Hwfr' Hfr'
+                ltac:(split; [exact Hn0|exact Hnq]) Hnr) as [Hcar' Hex'].
+    exists (is_auth s), (sign (is_sk s) (poseidon [hi_of c; hv_of c])), (hi_of c), (hv_of c),
+           (hi_of (is_auth s)), (hv_of (is_auth s)), (rproof_of (fst (gen (is_ct s) 0 (hi_of (is_auth s)) []))),
+           (root (is_ct s)), (state_of s), did, (mkcs ty (claim_nonce (is_auth s))).
+    unfold b0. cbn [b_claim b_auth b_sig b_mtp b_state b_did b_status istate_of st_ctr].
+    split; [reflexivity|]. split; [reflexivity|].
+    split; [apply claim_hashes_of; exact Hcf|].
+    split. { split; [|reflexivity]. unfold in_q, hi_of, hv_of. repeat constructor; apply Hr. }
+    split. { rewrite Hx, Hy. apply Hsig. }
+    split; [reflexivity|]. split; [exact Hex|]. split; [reflexivity|].
+    split; [apply claim_hashes_of; exact Hauthf|].
+    split; [exact Hcar|].
+    split. { unfold state_commits, istate_of; cbn [st_value st_ctr st_rtr st_ror]. apply roots_commit; assumption. }
+    split; [reflexivity|]. split; [exact Hpg|].
+    split. { cbn [status_entry cs_type]. split; [reflexivity|exact Hty]. }
+    split; [reflexivity|].
+    unfold status_not_revoked. cbn [cs_type cs_nonce].
+    exists rslv, (honest_answer omit s' (claim_nonce (is_auth s))), (state_of s'), (root (is_rt s')).
+    split; [exact Hlk|]. split; [exact Hans|].
+    unfold honest_answer; cbn [a_issuer a_mtp ts_state ts_ctr ts_rtr ts_ror].
+    split; [apply roots_commit; assumption|].
+    split; [apply hex_or_zero_opt_root|].
+    split; [exact Hcar'|exact Hex']. }
+  (* ... and the decoded status entry only changes the last check *)
+  pose proof (bjj_status_only_last b0 (RSObj (Some (mkcs ty n'))) H0) as Hlast.
+  unfold issue_bjj, status_after_json. rewrite Hjson.
+  unfold b0 in Hlast. cbn [b_claim b_auth b_sig b_mtp b_state b_did] in Hlast. rewrite Hlast.
+  unfold validate_auth_revocation. cbn [coerce_status cs_type].
+  destruct (String.eqb_spec ty "") as [E|_]; [contradiction|]. cbn [bind of_option cs_nonce].
+  destruct (Z.eqb_spec n' (claim_nonce (is_auth s))) as [E|_]; [contradiction|]. reflexivity.
 Qed.
 
 Theorem smt_complete :
